@@ -454,8 +454,8 @@ func VP_C02_long_strings() {
 	vp.Cover("end")
 }
 
-// a carrier capturing a wide, flat document: 600 empty lists (element type End,
-// as vanilla writes every empty list) and 600 empty int lists inside one
+// a carrier capturing a wide, flat document: 525 empty lists of element type End
+// (as vanilla writes every empty list) and 75 empty int lists inside one
 // compound are captured and re-encoded byte for byte (nothing accumulates per
 // captured value).
 func VP_C02_rawmsg_wide() {
@@ -467,7 +467,7 @@ func VP_C02_rawmsg_wide() {
 	for i := 0; i < n; i++ {
 		name := []byte{'a' + byte(i%26), 'a' + byte(i/26%26)}
 		et := byte(TagEnd)
-		if i%2 == 1 {
+		if i%8 == 7 {
 			et = TagInt
 		}
 		payload = append(payload, TagList, 0, 3, name[0], name[1], byte('0'+i%10), et, 0, 0, 0, 0)
